@@ -216,4 +216,53 @@ theorem sort_getD_bounds {l : List Rat} {i : Nat} (h : i < l.length) :
   have hm : (sort l).getD i 0 ∈ l := mem_sort.mp (getD_mem_of_lt (by rw [sort_length]; exact h))
   exact ⟨minL_le hm, le_maxL hm⟩
 
+/-! ### tables, index bookkeeping -/
+
+open Evo.Gen.Units in
+theorem _root_.Evo.Gen.Units.U.mem_all (u : U) : u ∈ U.all := by cases u <;> decide
+open Evo.Gen.Units in
+theorem _root_.Evo.Gen.Units.Rel.mem_all (r : Rel) : r ∈ Rel.all := by cases r <;> decide
+
+
+theorem secondsFromStart_length (ts : List Rat) : (secondsFromStart ts).length = ts.length := by
+  cases ts <;> simp [secondsFromStart]
+
+theorem reduceIds_length_of_valid {α} (l : List α) (ids : List Nat) (h : ∀ i ∈ ids, i < l.length) :
+    (reduceIds l ids).length = ids.length := by
+  induction ids with
+  | nil => simp [reduceIds]
+  | cons i r ih =>
+    have hi := h i (by simp)
+    have hr := ih (fun j hj => h j (by simp [hj]))
+    simp only [reduceIds] at hr ⊢
+    rw [List.filterMap_cons, List.getElem?_eq_getElem hi]
+    simp [hr]
+
+theorem reduceIds_getElem {α} (l : List α) (ids : List Nat) (h : ∀ i ∈ ids, i < l.length) (k : Nat)
+    (hk : k < ids.length) : (reduceIds l ids)[k]? = l[ids[k]]? := by
+  induction ids generalizing k with
+  | nil => simp at hk
+  | cons i r ih =>
+    have hi := h i (by simp)
+    simp only [reduceIds] at ih ⊢
+    rw [List.filterMap_cons, List.getElem?_eq_getElem hi]
+    cases k with
+    | zero => simp [List.getElem?_eq_getElem hi]
+    | succ k =>
+      simp only [List.getElem?_cons_succ, List.getElem_cons_succ]
+      exact ih (fun j hj => h j (by simp [hj])) k (by simpa using hk)
+
+theorem stepSq_length (ps : List (V3 Rat)) : (stepSq ps).length = ps.length - 1 := by
+  induction ps with
+  | nil => rfl
+  | cons a r ih =>
+    cases r with
+    | nil => rfl
+    | cons b r' =>
+      simp only [stepSq, List.length_cons] at ih ⊢
+      omega
+
+
+theorem sort_example : sort [3, 1, 2, 6] = [1, 2, 3, 6] := sort_eq_of_sorted_perm (by decide) (by decide)
+
 end Evo.Stats
